@@ -85,7 +85,7 @@ ForRuns(P(_, _)) ==
 
 OkRun(e, r) == r.res.st = "ok" /\ CanOk(pcat, pfiles, e)
 
-QueryReadOps == {"FindAll", "ForEach", "FindFirst", "Count", "Exists", "Derived", "FindById"}
+QueryReadOps == {"FindAll", "ForEach", "IterateDocs", "FindFirst", "Count", "Exists", "Derived", "FindById"}
 
 ---------------------------------------------------------------------------
 (* C20                                                                     *)
@@ -95,18 +95,19 @@ InvNoPanic == HaveLast => \A i \in DOMAIN Last.runs : NoPanic(Last.runs[i])
 InvOutcome == ForRuns(LAMBDA e, r : NoPanic(r) => OutcomeOk(e, r, pcat, pfiles))
 
 (* returned values of every call                                           *)
-InvValue == ForRuns(LAMBDA e, r : OkRun(e, r) => ValOk(e, r, pcat))
+InvValue == ForRuns(LAMBDA e, r : (OkRun(e, r) => ValOk(e, r, pcat)) /\ StoppedOk(e, r, pcat))
 
 (* C01 (also C02 under the twin profile, C11 under the rich-value profile) *)
 InvC01 == ForRuns(LAMBDA e, r :
-             (e.op \in {"FindAll", "ForEach", "FindById", "Derived"}) =>
+             (e.op \in {"FindAll", "ForEach", "IterateDocs", "FindById", "Derived"}) =>
                 /\ NoPanic(r)            \* a call that does not return normally returns no documents
                 /\ OutcomeOk(e, r, pcat, pfiles)
-                /\ OkRun(e, r) => ValOk(e, r, pcat))
+                /\ OkRun(e, r) => ValOk(e, r, pcat)
+                /\ StoppedOk(e, r, pcat))
 
 (* C08: only sorted / windowed queries                                     *)
 InvC08 == ForRuns(LAMBDA e, r :
-             (e.op \in {"FindAll", "ForEach", "Derived"}
+             (e.op \in {"FindAll", "ForEach", "IterateDocs", "Derived"}
                 /\ HasColl(pcat, e.c)
                 /\ (QueryOf(e).sort # <<>> \/ Windowed(QueryOf(e)))) =>
                 /\ NoPanic(r)
@@ -119,6 +120,7 @@ InvC09 == ForRuns(LAMBDA e, r :
                 /\ NoPanic(r)
                 /\ OutcomeOk(e, r, pcat, pfiles)
                 /\ OkRun(e, r) => ValOk(e, r, pcat)
+                /\ StoppedOk(e, r, pcat)
                 /\ PureOk(r))
 \* reads leave the database unchanged
 InvReadsPure == ForRuns(LAMBDA e, r :
